@@ -69,6 +69,12 @@ impl SystemEventAccessTracker
     }
 }
 
+#[cfg(feature = "verif")]
+impl SystemEventAccessTracker
+{
+    pub(crate) fn verif_state(&self) -> (usize, bool) { (self.prepared.len(), self.currently_reacting) }
+}
+
 impl Default for SystemEventAccessTracker
 {
     fn default() -> Self
